@@ -321,7 +321,9 @@ def run_server(out, tier, seed):
     disagreements = 0
     for (t, i, data, o), allowed in zip(where, vals):
         authz_checked += 1
-        refused = (o.get("r") == "err" and o.get("name") == "unauthorized") or (o.get("r") == "ok" and o.get("some") is False)
+        # refused = answered unauthorized, or unauthenticated (the session of a deleted user is no longer authenticated), or - for the
+        # "get" handlers - answered with an empty response
+        refused = (o.get("r") == "err" and o.get("name") in ("unauthorized", "unauthenticated")) or (o.get("r") == "ok" and o.get("some") is False)
         crashed = "crash" in o
         if crashed or (refused == bool(allowed)):
             # allowed by the model but refused, or refused by the model but performed
